@@ -343,6 +343,8 @@ def zi(x):
         return ival(x)
     if isinstance(x, SBool):
         return z3.If(x.e, ival(1), ival(0))
+    if isinstance(x, (z3.ArithRef, z3.BitVecRef)):
+        return x
     raise Unsupported("not an integer: %r" % (x,))
 
 
